@@ -26,6 +26,17 @@ Proof.
   pose proof (dim_pos (dy d) (dmo d)). lia.
 Qed.
 
+(* the compact forms are never "overlong digit strings" *)
+Lemma not_overlong_T s : In 84 s -> overlong_digits s = false.
+Proof.
+  intro H. unfold overlong_digits. replace (forallb is_digit s) with false; [rewrite andb_false_r; reflexivity|].
+  symmetry. apply not_true_is_false. intro F. rewrite forallb_forall in F. specialize (F 84 H). discriminate.
+Qed.
+Lemma not_overlong_short s : (List.length s < 15)%nat -> overlong_digits s = false.
+Proof. intro H. unfold overlong_digits. replace (15 <=? Z.of_nat (List.length s)) with false by lia. reflexivity. Qed.
+Lemma parse_date_compact_eq ig s : overlong_digits s = false -> parse_date ig s = parse_date_compact ig s.
+Proof. intro H. unfold parse_date. rewrite H. reflexivity. Qed.
+
 Lemma mk_date_ok ig d z : valid_dt d = true -> dus d = 0 ->
   mk_date ig (dy d) (dmo d) (dd d) (dh d) (dmi d) (ds d) z =
   DOk (mkdt (dy d) (dmo d) (dd d) (dh d) (dmi d) (ds d) 0 (if z && negb ig then 1 else 0)).
@@ -40,7 +51,8 @@ Lemma parse_date_fmt_dt ig d : valid_dt d = true -> dus d = 0 -> dtz d = 0 ->
   parse_date ig (fmt_dt d) = DOk d.
 Proof.
   intros Hv Hus Htz. destruct (valid_dt_bounds d Hv) as [Hy [? [? [? [? [? ?]]]]]].
-  unfold fmt_dt, d4, d2. cbn [app]. unfold parse_date. cbv beta iota.
+  unfold fmt_dt, d4, d2. cbn [app]. rewrite parse_date_compact_eq by (apply not_overlong_T; cbn [In]; auto 20).
+  unfold parse_date_compact. cbv beta iota.
   cbn [forallb]. rewrite !is_digit_48mod. cbn [andb]. rewrite Z.eqb_refl.
   rewrite n4_d4, !n2_d2 by lia. rewrite mk_date_ok by assumption.
   destruct d; cbn in *; subst; reflexivity.
@@ -50,7 +62,8 @@ Lemma parse_date_fmt_dt_z d : valid_dt d = true -> dus d = 0 -> dtz d = 1 ->
   parse_date false (fmt_dt d ++ [90]) = DOk d.
 Proof.
   intros Hv Hus Htz. destruct (valid_dt_bounds d Hv) as [Hy [? [? [? [? [? ?]]]]]].
-  unfold fmt_dt, d4, d2. cbn [app]. unfold parse_date. cbv beta iota.
+  unfold fmt_dt, d4, d2. cbn [app]. rewrite parse_date_compact_eq by (apply not_overlong_T; cbn [In]; auto 20).
+  unfold parse_date_compact. cbv beta iota.
   cbn [forallb]. rewrite !is_digit_48mod. cbn [andb]. rewrite !Z.eqb_refl. cbn [andb].
   rewrite n4_d4, !n2_d2 by lia. rewrite mk_date_ok by assumption.
   destruct d; cbn in *; subst; reflexivity.
@@ -61,7 +74,8 @@ Lemma parse_date_fmt_date ig d : valid_dt d = true -> dus d = 0 -> is_midnight d
 Proof.
   intros Hv Hus Hm. destruct (valid_dt_bounds d Hv) as [Hy [? [? [? [? [? ?]]]]]].
   unfold is_midnight in Hm. repeat (apply andb_true_iff in Hm as [Hm ?]).
-  unfold fmt_date, d4, d2. cbn [app]. unfold parse_date. cbv beta iota.
+  unfold fmt_date, d4, d2. cbn [app]. rewrite parse_date_compact_eq by (apply not_overlong_short; cbn; lia).
+  unfold parse_date_compact. cbv beta iota.
   cbn [forallb]. rewrite !is_digit_48mod. cbn [andb].
   rewrite n4_d4, !n2_d2 by lia.
   assert (E0 : dh d = 0) by lia. assert (E1 : dmi d = 0) by lia. assert (E2 : ds d = 0) by lia.
